@@ -168,6 +168,7 @@ func (s *supervisor) processDied(r *processorRequestDied) {
 	// Simple case: it was marked as Done and quit with no error.
 	if n.state == nodeStateDone && r.err == nil {
 		// Do nothing. This was supposed to happen. Keep the process as DONE.
+		n.doneExited = true
 		return
 	}
 
@@ -308,7 +309,9 @@ func (s *supervisor) processGC() {
 		curReady := false
 		switch cur.state {
 		case nodeStateDone:
-			curReady = true
+			// A DONE runnable may still be on its way out. Restarting its parent before it has returned
+			// would drop the node from the tree, and its exit could then no longer be accounted for.
+			curReady = cur.doneExited
 		case nodeStateCanceled:
 			curReady = true
 		case nodeStateDead:
